@@ -493,6 +493,9 @@ func crossGenFiles() map[string]string {
 		"zz-vgen-hist-entry-ix": pre("zz-vgen-hist-entry-ix", "@{exec_path} = @{bin}/zz-vgen-hist-entry-ix\n", "@{exec_path} ", "  /etc/entry r,\n  /usr/bin/entry-tool rPx,\n"),
 		"ff-vgen-hist-stackix":  mk("ff-vgen-hist-stackix", "  /etc/host5 r,\n\n  #aa:stack X zz-vgen-hist-entry-ix\n"),
 		"gg-vgen-hist-stackix":  mk("gg-vgen-hist-stackix", "  /etc/host6 r,\n\n  #aa:stack zz-vgen-hist-entry-ix\n"),
+		// an exec directive in a host that already mentions the target's executable literally (reads it)
+		"zz-vgen-hist-optexec": pre("zz-vgen-hist-optexec", "@{exec_path} = /opt/vgen/optexec /opt/vgen/optexec-helper\n", "@{exec_path} ", "  /etc/hist r,\n"),
+		"ee-vgen-hist-execlit": mk("ee-vgen-hist-execlit", "  /opt/vgen/optexec-helper r,\n  owner @{HOME}/.local/opt/vgen/optexec rw,\n\n  #aa:exec zz-vgen-hist-optexec\n"),
 		// exec directives: default, explicit and two-target forms over the same targets
 		"aa-vgen-hist-exec1": mk("aa-vgen-hist-exec1", "  #aa:exec zz-vgen-hist-uselib\n"),
 		"bb-vgen-hist-exec2": mk("bb-vgen-hist-exec2", "  #aa:exec U zz-vgen-hist-uselib\n\n  /etc/between r,\n"),
